@@ -339,6 +339,11 @@ def obligations(tier, seed):
         specs.append(spec(MOD, h, 'twin/' + h, kind='witness', cfg=c))
     for label, h, patches, c in (CANARIES if tier == 'thorough' else CANARIES[:3] + CANARIES[4:]):
         specs.append(spec(MOD, h, 'canary/' + label, kind='canary', cfg=c, patches=patches, cost=20))
+    # sqlite caches: remove_level_tiles_before(ts) removes exactly the tiles stored before ts, whatever the UTC offset of the host
+    from props import sqltime
+    specs.extend(sqltime.specs([('remove_before_removes_exactly_the_older', 'sqlite-time/remove-before-removes-exactly-the-older-tiles')], tier))
+    specs.append(sqltime.canary('remove_before_removes_exactly_the_older', 'sqlite cleanup compares with <=',
+                                "last_modified < datetime(?, 'unixepoch', 'localtime'))\",", "last_modified <= datetime(?, 'unixepoch', 'localtime'))\","))
     return specs
 
 
@@ -381,3 +386,9 @@ MANIFEST_ENTRY = dict(
          'outside the one-second band. Two known findings are carried.',
     note='Partial: SQL deletes, rmtree and real directory walks are outside; directory tree is a fixed small stub; coverages as in C11.',
 )
+
+# --- manifest text refreshed after rounds 6-8 (obligations added since the entry above was written)
+MANIFEST_ENTRY['text'] = MANIFEST_ENTRY['text'] + ' Compact caches: removing a tile leaves the neighbouring slots alone (C19 frame argument). SQLite caches: remove_level_tiles_before removes exactly the tiles stored before the cutoff for every UTC offset of the host.'
+MANIFEST_ENTRY['note'] = 'Partial: rmtree and real directory walks are outside; SQL deletes are covered only through a model of the date expressions in the statements of mbtiles.py (UTC offset of the host symbolic); directory tree is a fixed small stub; coverages as in C11.'
+MANIFEST_ENTRY['engine'] = 'E1+E2+E4'
+META['assumptions'] = list(META.get('assumptions', [])) + ["sqlite-time obligation: SQLite date expressions of mbtiles.py are an arithmetic model on 'local seconds' (epoch + UTC offset of the host)", 'compact-remove obligations: the C19 byte-store model']
